@@ -3,6 +3,7 @@
   Connection-task part: what is written to disk and when `PieceDone` is reported; manager part: a piece becomes
   owned only by `PieceDone`, and a task that ends in error gives its piece back (theorems of C12 re-used).
 -/
+import RdestModel.Meta.Name
 import RdestModel.Lemmas.Trace
 import RdestModel.Lemmas.Sd
 import RdestModel.Props.C12
@@ -308,6 +309,54 @@ theorem T4_owned_pieces_have_been_stored (s : SState) (h : SReach s) (i : Nat) (
 example : ((((sstep { m := { statuses := [.missing], peers := [] }, stored := [] } (.add 0 1)).bind
     (sstep · (.bitfield 0 [true] (some 0)))).bind (sstep · (.unchoke 0 (some 0)))).bind (sstep · (.pieceDone 0 none))).map
     (fun s => (s.m.statuses, s.stored)) = some ([.have], [0]) := by decide
+
+/-! ### Piece files of different pieces never share a name -/
+
+section Names
+open Rdest.Meta
+
+theorem hexDigitU_inj : ∀ a b : Fin 16, hexDigitU a.val = hexDigitU b.val → a = b := by decide
+
+theorem hexDigitU_inj_nat (a b : Nat) (ha : a < 16) (hb : b < 16) (h : hexDigitU a = hexDigitU b) : a = b := by
+  have := hexDigitU_inj ⟨a, ha⟩ ⟨b, hb⟩ h
+  exact Fin.val_eq_of_eq this
+
+theorem hexUpper_injective : ∀ a b : Bytes, hexUpper a = hexUpper b → a = b := by
+  intro a
+  induction a with
+  | nil => intro b h; cases b with
+    | nil => rfl
+    | cons y ys => simp [hexUpper] at h
+  | cons x xs ih =>
+    intro b h
+    cases b with
+    | nil => simp [hexUpper] at h
+    | cons y ys =>
+      simp only [hexUpper, List.cons.injEq] at h
+      obtain ⟨h1, h2, h3⟩ := h
+      have hx : x.toNat < 256 := x.toNat_lt
+      have hy : y.toNat < 256 := y.toNat_lt
+      have e1 := hexDigitU_inj_nat _ _ (by omega) (by omega) h1
+      have e2 := hexDigitU_inj_nat _ _ (Nat.mod_lt _ (by decide)) (Nat.mod_lt _ (by decide)) h2
+      have : x.toNat = y.toNat := by omega
+      have hxy : x = y := UInt8.toNat_inj.mp this
+      rw [hxy, ih ys h3]
+
+/-- **T5 (C01).** The file name of a stored piece (`hash_to_string(hash) + ".piece"`) determines the hash: pieces with
+    different listed hashes are stored in different files, so storing one verified piece never replaces another
+    (and "named by the listed hash" in `C01_trace` means the file *is* that piece's). -/
+theorem T5_piece_file_names_do_not_collide (h1 h2 : Bytes) (h : pieceFileName h1 = pieceFileName h2) : h1 = h2 :=
+  hexUpper_injective h1 h2 (List.append_cancel_right h)
+
+/-- Two characters per byte: a 20-byte hash gives a 40-character name before the suffix. -/
+theorem hexUpper_length (h : Bytes) : (hexUpper h).length = 2 * h.length := by
+  induction h with
+  | nil => rfl
+  | cons x xs ih => simp [hexUpper, ih]; omega
+
+example : String.ofList (pieceFileName [0x0a, 0xff, 0x10]) = "0AFF10.piece" := by decide
+
+end Names
 
 /-! ### The whole trace of a connection task: every script -/
 
